@@ -4,30 +4,41 @@
 // @config name=soft rustflags='--cfg kuznyechik_backend="soft"'
 // @config name=soft_zeroize features=zeroize rustflags='--cfg kuznyechik_backend="soft"'
 use super::*;
-use backends::__vp_soft::{uf_expand_enc_keys, uf_inv_enc_keys, uf_transform};
+use backends::__vp_soft::{uf_expand_enc_keys, uf_inv_enc_keys};
 
 macro_rules! with_key_stubs { ($i:item) => {
     #[kani::stub(backends::expand_enc_keys, uf_expand_enc_keys)]
     #[kani::stub(backends::inv_enc_keys, uf_inv_enc_keys)]
     $i
 }; }
+const ENC_PAR: usize = 3;
+const DEC_PAR: usize = 1; // DecBackend has no parallel function of its own (width 1: the dispatch goes block by block)
 macro_rules! with_block_stubs { ($i:item) => {
-    #[kani::stub(backends::transform, uf_transform)]
+    #[kani::stub(<backends::EncBackend<'_> as cipher::BlockCipherEncBackend>::encrypt_block, uf_enc_block)]
+    #[kani::stub(<backends::EncBackend<'_> as cipher::BlockCipherEncBackend>::encrypt_par_blocks, lane_enc_par)]
+    #[kani::stub(<backends::DecBackend<'_> as cipher::BlockCipherDecBackend>::decrypt_block, uf_dec_block)]
     $i
 }; }
-macro_rules! with_spec_stubs { ($i:item) => {
+macro_rules! with_backend_contracts { ($i:item) => {
     #[kani::stub(backends::expand_enc_keys, backends::__vp_soft::spec_expand_enc_keys)]
-    #[kani::stub(backends::inv_enc_keys, backends::__vp_soft::spec_inv_enc_keys)]
-    #[kani::stub(backends::transform, backends::__vp_soft::spec_transform)]
+    #[kani::stub(backends::inv_enc_keys, pair_inv_enc_keys)]
+    #[kani::stub(<backends::EncBackend<'_> as cipher::BlockCipherEncBackend>::encrypt_block, spec_enc_block)]
+    #[kani::stub(<backends::DecBackend<'_> as cipher::BlockCipherDecBackend>::decrypt_block, spec_dec_block)]
     $i
 }; }
 include!("@VERIF@/contracts/kuznyechik/api_common.inc");
+include!("@VERIF@/contracts/kuznyechik/api_tables.inc");
 
-// NOT REGISTERED (timeout in the final run under machine load ~25; harness kept for the next round): ob name=a_api_enc cfg=soft props=C07,C20 fn=kuznyechik::Kuznyechik::new,kuznyechik::Kuznyechik::encrypt_with_backend,kuznyechik::KuznyechikEnc::new,kuznyechik::KuznyechikEnc::encrypt_with_backend uses=c_expand_enc_keys,c_enc_block timeout=600
-// NOT REGISTERED (the HINT bookkeeping of the additive uninterpreted pair does not match the call order of this backend, so the harness assertion is not derivable (spurious failure of the abstraction, not of the crate); to be redone with the transcript oracle): ob name=a_api_dec cfg=soft props=C07,C20 fn=kuznyechik::Kuznyechik::new,kuznyechik::Kuznyechik::decrypt_with_backend uses=c_expand_enc_keys,c_inv_enc_keys,c_dec_block,l_dec_dk_is_standard,l_linv_additive timeout=600
-// NOT REGISTERED (the HINT bookkeeping of the additive uninterpreted pair does not match the call order of this backend, so the harness assertion is not derivable (spurious failure of the abstraction, not of the crate); to be redone with the transcript oracle): ob name=a_api_dec_only cfg=soft props=C07,C20 fn=kuznyechik::KuznyechikDec::new,kuznyechik::KuznyechikDec::decrypt_with_backend uses=c_expand_enc_keys,c_inv_enc_keys,c_dec_block,l_dec_dk_is_standard,l_linv_additive timeout=600
-// C01 for this backend: c_enc_block (= E under the ten keys), c_dec_block + c_inv_enc_keys + l_dec_dk_is_standard (= D under the
-// same keys, on the key material produced by the crate's own conversion) and lemmas.l_ref_roundtrip(_rev) (D_K E_K = E_K D_K = id).
+// C07 public API and C01 round trip: harness bodies and the composition argument in api_tables.inc
+// @ob name=a_api_enc cfg=soft props=C07,C20 fn=kuznyechik::Kuznyechik::new,kuznyechik::Kuznyechik::encrypt_with_backend,kuznyechik::KuznyechikEnc::new,kuznyechik::KuznyechikEnc::encrypt_with_backend,kuznyechik::big_soft::EncKeys::new uses=c_expand_enc_keys,c_enc_block,l_ref_roundtrip,l_ref_roundtrip_rev timeout=300
+// @ob name=a_api_dec cfg=soft props=C07,C20 fn=kuznyechik::Kuznyechik::new,kuznyechik::Kuznyechik::decrypt_with_backend,kuznyechik::big_soft::EncDecKeys::from uses=c_expand_enc_keys,c_inv_enc_keys,c_dec_block,l_dec_dk_is_standard,l_ref_roundtrip,l_ref_roundtrip_rev timeout=300
+// @ob name=a_api_only_dec cfg=soft props=C07,C20 fn=kuznyechik::KuznyechikDec::new,kuznyechik::KuznyechikDec::decrypt_with_backend,kuznyechik::big_soft::DecKeys::from uses=c_expand_enc_keys,c_inv_enc_keys,c_dec_block,l_dec_dk_is_standard,l_ref_roundtrip,l_ref_roundtrip_rev timeout=300
+// @ob name=a_api_converted cfg=soft props=C12,C07,C20 fn=kuznyechik::Kuznyechik::from,kuznyechik::KuznyechikDec::from,kuznyechik::Kuznyechik::clone,kuznyechik::KuznyechikEnc::clone,kuznyechik::KuznyechikDec::clone,kuznyechik::Kuznyechik::encrypt_with_backend,kuznyechik::Kuznyechik::decrypt_with_backend,kuznyechik::KuznyechikDec::decrypt_with_backend uses=c_expand_enc_keys,c_inv_enc_keys,c_dec_block,l_dec_dk_is_standard,l_ref_roundtrip,l_ref_roundtrip_rev,c_enc_block timeout=300
+// @ob name=r_comb_ed cfg=soft props=C01 kind=lemma fn=kuznyechik::Kuznyechik::from,kuznyechik::Kuznyechik::encrypt_with_backend,kuznyechik::Kuznyechik::decrypt_with_backend uses=c_inv_enc_keys,c_enc_block,c_dec_block,l_dec_dk_is_standard,l_ref_roundtrip,l_ref_roundtrip_rev timeout=300
+// @ob name=r_comb_de cfg=soft props=C01 kind=lemma fn=kuznyechik::Kuznyechik::from,kuznyechik::Kuznyechik::encrypt_with_backend,kuznyechik::Kuznyechik::decrypt_with_backend uses=c_inv_enc_keys,c_enc_block,c_dec_block,l_dec_dk_is_standard,l_ref_roundtrip,l_ref_roundtrip_rev timeout=300
+// @ob name=r_halves_ed cfg=soft props=C01,C12 kind=lemma fn=kuznyechik::KuznyechikDec::from,kuznyechik::KuznyechikEnc::encrypt_with_backend,kuznyechik::KuznyechikDec::decrypt_with_backend uses=c_inv_enc_keys,c_enc_block,c_dec_block,l_dec_dk_is_standard,l_ref_roundtrip,l_ref_roundtrip_rev timeout=300
+// @ob name=r_halves_de cfg=soft props=C01,C12 kind=lemma fn=kuznyechik::KuznyechikDec::from,kuznyechik::KuznyechikEnc::encrypt_with_backend,kuznyechik::KuznyechikDec::decrypt_with_backend uses=c_inv_enc_keys,c_enc_block,c_dec_block,l_dec_dk_is_standard,l_ref_roundtrip,l_ref_roundtrip_rev timeout=300
+// @ob name=r_key_both cfg=soft props=C01 kind=lemma fn=kuznyechik::Kuznyechik::new,kuznyechik::Kuznyechik::encrypt_with_backend,kuznyechik::Kuznyechik::decrypt_with_backend uses=c_expand_enc_keys,c_inv_enc_keys,c_enc_block,c_dec_block,l_dec_dk_is_standard,l_ref_roundtrip,l_ref_roundtrip_rev timeout=300
 // @ob name=k_len cfg=soft props=C11 kind=bounded bound="slice length <= 300" fn=kuznyechik::Kuznyechik::new_from_slice uses=c_expand_enc_keys,c_inv_enc_keys timeout=300
 // @ob name=k_len_enc cfg=soft props=C11 kind=bounded bound="slice length <= 300" fn=kuznyechik::KuznyechikEnc::new_from_slice uses=c_expand_enc_keys timeout=300
 // @ob name=k_len_dec cfg=soft props=C11 kind=bounded bound="slice length <= 300" fn=kuznyechik::KuznyechikDec::new_from_slice uses=c_expand_enc_keys,c_inv_enc_keys timeout=300
@@ -46,22 +57,29 @@ include!("@VERIF@/contracts/kuznyechik/api_common.inc");
 // @ob name=z_kuznyechik_dec_from_ref cfg=soft_zeroize props=C16 fn=kuznyechik::KuznyechikDec::drop,kuznyechik::KuznyechikDec::from uses=c_inv_enc_keys timeout=300
 // @ob name=z_kuznyechik_dec_from_val cfg=soft_zeroize props=C16 fn=kuznyechik::KuznyechikDec::drop,kuznyechik::KuznyechikDec::from uses=c_inv_enc_keys timeout=300
 
-// parallel width 3 for encryption: n = 0, 1 (fewer), 3 (equal), 4 (not a multiple); decryption has width 1: n = 0, 1, 3
-// @ob name=m_enc_0 cfg=soft props=C04,C15 kind=bounded bound="n = 0 block(s)" fn=kuznyechik::Kuznyechik::encrypt_with_backend,kuznyechik::big_soft::backends::EncBackend::encrypt_par_blocks,kuznyechik::big_soft::backends::EncBackend::encrypt_block uses=c_transform timeout=300
+// parallel width 3 for encryption: n = 0, 1, 2 (fewer: tail only), 3 (equal), 4 (one chunk + tail), 7 (two chunks + tail);
+// decryption has width 1: n = 0, 1, 2, 3
+// @ob name=m_enc_0 cfg=soft props=C04,C15 kind=bounded bound="n = 0 blocks" fn=kuznyechik::Kuznyechik::encrypt_with_backend,kuznyechik::big_soft::backends::EncBackend::encrypt_par_blocks uses=c_enc_block,p_enc_par timeout=600
 multi_enc!(m_enc_0, Kuznyechik, SZ, 0);
-// @ob name=m_enc_1 tier=thorough cfg=soft props=C04,C15 kind=bounded bound="n = 1 block(s)" fn=kuznyechik::Kuznyechik::encrypt_with_backend,kuznyechik::big_soft::backends::EncBackend::encrypt_par_blocks,kuznyechik::big_soft::backends::EncBackend::encrypt_block uses=c_transform timeout=1800
+// @ob name=m_enc_1 cfg=soft props=C04,C15 kind=bounded bound="n = 1 blocks" fn=kuznyechik::Kuznyechik::encrypt_with_backend,kuznyechik::big_soft::backends::EncBackend::encrypt_par_blocks uses=c_enc_block,p_enc_par timeout=600
 multi_enc!(m_enc_1, Kuznyechik, SZ, 1);
-// NOT REGISTERED (timeout in the final run under machine load ~25; harness kept for the next round): ob name=m_enc_3 cfg=soft props=C04,C15 kind=bounded bound="n = 3 block(s)" fn=kuznyechik::Kuznyechik::encrypt_with_backend,kuznyechik::big_soft::backends::EncBackend::encrypt_par_blocks,kuznyechik::big_soft::backends::EncBackend::encrypt_block uses=c_transform timeout=600
+// @ob name=m_enc_2 cfg=soft props=C04,C15 kind=bounded bound="n = 2 blocks" fn=kuznyechik::Kuznyechik::encrypt_with_backend,kuznyechik::big_soft::backends::EncBackend::encrypt_par_blocks uses=c_enc_block,p_enc_par timeout=600
+multi_enc!(m_enc_2, Kuznyechik, SZ, 2);
+// @ob name=m_enc_3 cfg=soft props=C04,C15 kind=bounded bound="n = 3 blocks" fn=kuznyechik::Kuznyechik::encrypt_with_backend,kuznyechik::big_soft::backends::EncBackend::encrypt_par_blocks uses=c_enc_block,p_enc_par timeout=600
 multi_enc!(m_enc_3, Kuznyechik, SZ, 3);
-// NOT REGISTERED (timeout in the final run under machine load ~25; harness kept for the next round): ob name=m_enc_4 cfg=soft props=C04,C15 kind=bounded bound="n = 4 block(s)" fn=kuznyechik::Kuznyechik::encrypt_with_backend,kuznyechik::big_soft::backends::EncBackend::encrypt_par_blocks,kuznyechik::big_soft::backends::EncBackend::encrypt_block uses=c_transform timeout=600
+// @ob name=m_enc_4 cfg=soft props=C04,C15 kind=bounded bound="n = 4 blocks" fn=kuznyechik::Kuznyechik::encrypt_with_backend,kuznyechik::big_soft::backends::EncBackend::encrypt_par_blocks uses=c_enc_block,p_enc_par timeout=600
 multi_enc!(m_enc_4, Kuznyechik, SZ, 4);
-// NOT REGISTERED (timeout in the final run under machine load ~25; harness kept for the next round): ob name=m_enconly_4 cfg=soft props=C04,C15 kind=bounded bound="n = 4 block(s)" fn=kuznyechik::KuznyechikEnc::encrypt_with_backend,kuznyechik::big_soft::backends::EncBackend::encrypt_par_blocks,kuznyechik::big_soft::backends::EncBackend::encrypt_block uses=c_transform timeout=600
-multi_enc!(m_enconly_4, KuznyechikEnc, SZE, 4);
-// @ob name=m_dec_0 cfg=soft props=C04,C15 kind=bounded bound="n = 0 block(s)" fn=kuznyechik::Kuznyechik::decrypt_with_backend,kuznyechik::big_soft::backends::DecBackend::decrypt_block uses=c_transform timeout=300
+// @ob name=m_enc_7 cfg=soft props=C04,C15 kind=bounded bound="n = 7 blocks" fn=kuznyechik::Kuznyechik::encrypt_with_backend,kuznyechik::big_soft::backends::EncBackend::encrypt_par_blocks uses=c_enc_block,p_enc_par timeout=600
+multi_enc!(m_enc_7, Kuznyechik, SZ, 7);
+// @ob name=m_enconly_7 cfg=soft props=C04,C15 kind=bounded bound="n = 7 blocks" fn=kuznyechik::KuznyechikEnc::encrypt_with_backend,kuznyechik::big_soft::backends::EncBackend::encrypt_par_blocks uses=c_enc_block,p_enc_par timeout=600
+multi_enc!(m_enconly_7, KuznyechikEnc, SZE, 7);
+// @ob name=m_dec_0 cfg=soft props=C04,C15 kind=bounded bound="n = 0 blocks" fn=kuznyechik::Kuznyechik::decrypt_with_backend uses=c_dec_block timeout=600
 multi_dec!(m_dec_0, Kuznyechik, SZ, 0);
-// @ob name=m_dec_1 tier=thorough cfg=soft props=C04,C15 kind=bounded bound="n = 1 block(s)" fn=kuznyechik::Kuznyechik::decrypt_with_backend,kuznyechik::big_soft::backends::DecBackend::decrypt_block uses=c_transform timeout=1800
+// @ob name=m_dec_1 cfg=soft props=C04,C15 kind=bounded bound="n = 1 blocks" fn=kuznyechik::Kuznyechik::decrypt_with_backend uses=c_dec_block timeout=600
 multi_dec!(m_dec_1, Kuznyechik, SZ, 1);
-// NOT REGISTERED (timeout in the final run under machine load ~25; harness kept for the next round): ob name=m_dec_3 cfg=soft props=C04,C15 kind=bounded bound="n = 3 block(s)" fn=kuznyechik::Kuznyechik::decrypt_with_backend,kuznyechik::big_soft::backends::DecBackend::decrypt_block uses=c_transform timeout=600
+// @ob name=m_dec_2 cfg=soft props=C04,C15 kind=bounded bound="n = 2 blocks" fn=kuznyechik::Kuznyechik::decrypt_with_backend uses=c_dec_block timeout=600
+multi_dec!(m_dec_2, Kuznyechik, SZ, 2);
+// @ob name=m_dec_3 cfg=soft props=C04,C15 kind=bounded bound="n = 3 blocks" fn=kuznyechik::Kuznyechik::decrypt_with_backend uses=c_dec_block timeout=600
 multi_dec!(m_dec_3, Kuznyechik, SZ, 3);
-// NOT REGISTERED (timeout in the final run under machine load ~25; harness kept for the next round): ob name=m_deconly_3 cfg=soft props=C04,C15 kind=bounded bound="n = 3 block(s)" fn=kuznyechik::KuznyechikDec::decrypt_with_backend,kuznyechik::big_soft::backends::DecBackend::decrypt_block uses=c_transform timeout=600
+// @ob name=m_deconly_3 cfg=soft props=C04,C15 kind=bounded bound="n = 3 blocks" fn=kuznyechik::KuznyechikDec::decrypt_with_backend uses=c_dec_block timeout=600
 multi_dec!(m_deconly_3, KuznyechikDec, SZD, 3);
